@@ -2,6 +2,7 @@
 (igris_ato*, atol/atoi), their width wrappers and vt100_left."""
 from c07_common import *
 from c01 import trace_const
+from irlib import keep_all_but_new_helpers
 
 IGRIS_CORES = [('igris_i64toa', True), ('igris_u64toa', False)]
 LIBC_CORES = [('itoa', True), ('utoa', False), ('ltoa', True), ('ultoa', False)]
@@ -660,9 +661,10 @@ def run(rep, repo, tier):
     rep.assumptions += ['2 <= base <= 36 for the parsers', 'little-endian target for the byte-lane rules',
                         'C locale for isspace/isdigit in atol (glibc table bits _ISdigit/_ISspace)',
                         'input strings are NUL terminated']
-    mod = compile_ir(repo + '/igris/util/numconvert.c', repo)
+    # file-local helpers a refactoring may introduce (e.g. a shared digit-reversal routine) are folded into their callers
+    mod = compile_ir(repo + '/igris/util/numconvert.c', repo, inline=keep_all_but_new_helpers(('local_pow',)))
     rep.units.append('igris/util/numconvert.c')
-    modl = libc_unit(repo, 'compat/libc/stdlib/itoa.c')
+    modl = libc_unit(repo, 'compat/libc/stdlib/itoa.c', inline=keep_all_but_new_helpers())
     rep.units.append('compat/libc/stdlib/itoa.c')
     alphabets = {}
     for (m, cores, at_end) in ((mod, IGRIS_CORES, True), (modl, LIBC_CORES, False)):
